@@ -682,6 +682,72 @@ lib.files = ['file1.vhd', 'file2.vhd']
         assert_eq!(diagnostics[0].pos.source.file_name(), path1.as_path());
     }
 
+    /// Test that a dependency which was removed is not part of a circular dependency later
+    #[test]
+    fn test_dependency_between_files_is_reversed() {
+        let tempdir = tempfile::tempdir().unwrap();
+        let root = dunce::canonicalize(tempdir.path()).unwrap();
+
+        let path1 = root.join("file1.vhd");
+        let path2 = root.join("file2.vhd");
+        std::fs::write(
+            &path1,
+            "
+use work.pkg2.all;
+
+package pkg1 is
+end package;
+        ",
+        )
+        .unwrap();
+        let mut source1 = Source::from_latin1_file(&path1).unwrap();
+
+        std::fs::write(
+            &path2,
+            "
+package pkg2 is
+end package;
+        ",
+        )
+        .unwrap();
+        let mut source2 = Source::from_latin1_file(&path2).unwrap();
+
+        let config_str = "
+[libraries]
+lib.files = ['file1.vhd', 'file2.vhd']
+        ";
+
+        let config = Config::from_str(config_str, &root).unwrap();
+        let mut messages = Vec::new();
+        let mut project = Project::from_config(config, &mut messages);
+        assert_eq!(messages, vec![]);
+        check_no_diagnostics(&project.analyse());
+
+        // pkg1 no longer uses pkg2
+        update(
+            &mut project,
+            &mut source1,
+            "
+package pkg1 is
+end package;
+        ",
+        );
+        check_no_diagnostics(&project.analyse());
+
+        // pkg2 uses pkg1 instead
+        update(
+            &mut project,
+            &mut source2,
+            "
+use work.pkg1.all;
+
+package pkg2 is
+end package;
+        ",
+        );
+        check_no_diagnostics(&project.analyse());
+    }
+
     /// Test that the configuration can be updated
     #[test]
     fn test_config_update() {
